@@ -29,7 +29,8 @@ Inductive rexpr : Type :=
 | XNilCmp (op : cmpop) (a : rexpr)                    (* a == nil / a != nil                                        *)
 | XErrNew (msg : string)                              (* errors.New("msg")                                          *)
 | XErrorf (msg : string) (args : list rexpr)          (* fmt.Errorf("msg", args...)                                 *)
-| XRand31.                                            (* rand.Int31()                                               *)
+| XRand31                                             (* rand.Int31()                                               *)
+| XNew (ty : string) (fields : list (string * string)).   (* &ty{field: variable, ...}                             *)
 
 (* what binary.Write does with one element of WritePacket's []any list *)
 Inductive wkind := WInt32 | WBytes.
@@ -52,6 +53,8 @@ Inductive rstmt : Type :=
 | SReturn (es : list rexpr)                           (* return es   (empty: the named results)                     *)
 | SNewConn (x : string) (fields : list (string * rexpr))   (* x := &RCONConn{f: e, ...}                            *)
 | SDial (o : string) (args : string)                  (* o.Conn, err = net.Dial(args)                               *)
+| SListen (x : string) (args : string)                (* x, err := net.Listen(args)                                 *)
+| SAcceptConn (x o : string)                          (* x, err := o.Listener.Accept()                              *)
 | SOther (text : string).                             (* anything else, as text                                     *)
 
 (* one translated function: receiver / connection variable, parameters and results with their declared
